@@ -271,6 +271,10 @@ class MacroProgram(ElementProgram):
             else:
                 key, value = tal.parse_substitution(clause)
                 translate = ns.get((I18N, 'translate')) == ''
+                if translate:
+                    # The static content (used when the expression
+                    # evaluates to ``default``) is translated, too.
+                    content = nodes.Translate('', content)
                 content = self._make_content_node(
                     value, content, key, translate,
                 )
@@ -293,9 +297,9 @@ class MacroProgram(ElementProgram):
             except KeyError:
                 pass
             else:
-                dynamic = ns.get((TAL, 'content')) or ns.get((TAL, 'replace'))
-
-                if not dynamic:
+                # With tal:replace, the content is rendered only when the
+                # expression evaluates to ``default``.
+                if not ns.get((TAL, 'content')):
                     content = nodes.Translate(clause, content)
 
             # tal:attributes
